@@ -74,8 +74,20 @@ def handle (m : String) (j : Json) : Except String Json := do
     let mode := match optField j "mode" with
       | some (Json.str "formula_v2") => ArgMode.formulaV2
       | _ => ArgMode.native
-    match randomNumberVia mode mn mx st k with
+    -- "raw": the three Python objects as they arrive (ints or strings); overrides min/max/step
+    let pyArg (x : Json) : Except String PyArg := match x with
+      | Json.str t => pure (PyArg.str t)
+      | v => do pure (PyArg.int (← v.getInt?))
+    let res ← match optField j "raw" with
+      | some r => do
+        let a ← r.getArr?
+        match a.toList with
+        | [x, y, z] => pure (randomNumberObj codeArgConv (← pyArg x) (← pyArg y) (← pyArg z) k)
+        | _ => throw "raw: three arguments expected"
+      | none => pure (randomNumberVia mode mn mx st k)
+    match res with
     | .typeError => pure (Json.mkObj [("n", jInt (rnCount mn mx st)), ("out", tag "type_error")])
+    | .valueError => pure (Json.mkObj [("n", jInt (rnCount mn mx st)), ("out", tag "value_error")])
     | .out o =>
       -- what the output stream receives when the result is re-rendered in the v2 dialect
       let rendered : Json := match o with
